@@ -266,10 +266,14 @@ def o144(ctx):
             ctx.finding(q, "returned map", f"C{n}: the result must be the mean of the n rotated copies (sum / n)", fn, m, value=val)
 
 
-def obligations():
+def _obligations():
     return [
         Obligation("O14.1", "rotate: affine_transform receives the pull-back [[R^T, c - R^T c],[0,1]], c = floor(shape/2)", o141, floor=12),
         Obligation("O14.2", "place_object: rotation/position/colour of the same particle, transpose_rotation, surroundings kept", o142, floor=6),
         Obligation("O14.4", "symmetrize_volume: copies rotated by k*360/n about z for all n, initialised sum, divided by n", o144, floor=40),
         Obligation("O14.5", "get_start_end_indices closed forms; extract_subvolume fills with the volume mean", o145, floor=14),
     ]
+
+
+def obligations():
+    return _obligations() + [effects_obligation("C14")]
